@@ -23,7 +23,7 @@ def pool_entities(p):
     return out
 
 
-def check_entity(p, report, ci, f, it, r_param="R5.1", r_arr="R5.2", r_est="R5.3", ent=None):
+def check_entity(p, report, ci, f, it, r_param="R5.1", r_arr="R5.2", r_est="R5.3", ent=None, only_params=None):
     ent = ent or f"{ci.name}.{f.name}"
     init = p.init_stored_attrs(ci)
     ws = writes(it.events, roots=("self",), include_params=True)
@@ -48,6 +48,8 @@ def check_entity(p, report, ci, f, it, r_param="R5.1", r_arr="R5.2", r_est="R5.3
             report.add(r_param, ent, construct, w.ev.loc, False, detail=what, path=w.ev.path())
         elif root.startswith("p:"):
             pname = root[2:]
+            if only_params is not None and pname not in only_params:
+                continue
             is_est = w.how in ESTIMATOR_HOWS or w.kind == "store"
             rid = r_est if is_est else r_arr
             if rid is None:
